@@ -18,7 +18,7 @@ import (
 	"github.com/acquirecloud/golibs/timeout"
 )
 
-const coqHeader = "From Coq Require Import List ZArith NArith.\nFrom GL Require Import model.THeap run.Run_C12.\nImport ListNotations.\nOpen Scope Z_scope.\n"
+const coqHeader = "From Coq Require Import List ZArith NArith.\nFrom GL Require Import model.THeap spec.TimerObs run.Run_C12.\nImport ListNotations.\nOpen Scope Z_scope.\n"
 
 var (
 	childIdx = flag.Int("child", -1, "internal: run the live scenarios of this child index and write live_<i>.jsonl")
@@ -84,7 +84,7 @@ func main() {
 
 	// (b) live scenarios
 	liveWG.Wait()
-	collectLive(s, liveOut, &id)
+	collectLive(fl, s, liveOut, &id)
 
 	s.Close("(a) heap scripts: prefilled heaps of size 0..maxN x 4 fire-time patterns x every op sequence of depth d over {push lo/mid/hi, removeAt k, pop} "+
 		"plus seeded random scripts (6-60 steps; equal / tied / past / far fire times; remove front/middle/back/repeated; pop; fix; init), compared step by step with model/THeap.v; "+
@@ -98,6 +98,8 @@ type childLine struct {
 	Term    string         `json:"term"` // Gallina lcase (without the LiveCase id wrapper)
 	NonTriv bool           `json:"nontriv"`
 	Counts  map[string]int `json:"counts"`
+	Stop    bool           `json:"stop,omitempty"`
+	Ex      *exInput       `json:"ex,omitempty"`
 	Direct  []directV      `json:"direct"`
 	Extra   map[string]any `json:"extra,omitempty"`
 }
@@ -115,11 +117,21 @@ func spawnChild(fl *hx.Flags, i int, from string) []childLine {
 		args = append(args, "--from", from)
 	}
 	cmd := exec.Command(os.Args[0], args...)
-	cmd.Stderr = os.Stderr
-	if err := cmd.Run(); err != nil {
-		fmt.Fprintf(os.Stderr, "child %d: %v\n", i, err)
+	var errb tailBuf
+	cmd.Stderr = &errb
+	err := cmd.Run()
+	lines := readChild(filepath.Join(dir, "live.jsonl"))
+	if err != nil {
+		// a crash of the child (fatal error, panic in a goroutine of the package) is an observation
+		l := childLine{Case: tlive.Scenario{Kind: "live", Family: "child-crash"}, Term: "mkLC 10 10 [] [] 0", Counts: map[string]int{"child-crash": 1}}
+		if n := len(lines); n > 0 {
+			l.Case = lines[n-1].Case // the scenario that ran last is the best replay candidate
+		}
+		l.Direct = append(l.Direct, directV{What: "driver process crashed (panic outside Call/Cancel or fatal error)", Detail: fmt.Sprintf("%v: %s", err, errb.String())})
+		lines = append(lines, l)
 	}
-	return readChild(filepath.Join(dir, "live.jsonl"))
+	os.Stderr.Write(errb.b)
+	return lines
 }
 
 func readChild(path string) []childLine {
@@ -129,9 +141,16 @@ func readChild(path string) []childLine {
 	return hx.ReadCases[childLine](path)
 }
 
-func collectLive(s *hx.Sink, outs [][]childLine, id *uint64) {
+func collectLive(fl *hx.Flags, s *hx.Sink, outs [][]childLine, id *uint64) {
+	var ins []exInput
+	var ids []uint64
+	defer func() { explainAll(fl, s, ins, ids) }()
 	for _, lines := range outs {
 		for _, l := range lines {
+			if l.Ex != nil {
+				ins = append(ins, *l.Ex)
+				ids = append(ids, *id+1)
+			}
 			*id++
 			l.Case.ID = *id
 			s.Add(l.Case, fmt.Sprintf("LiveCase %d%%N (%s)", *id, l.Term), l.NonTriv)
@@ -182,3 +201,15 @@ func replay(fl *hx.Flags, s *hx.Sink) {
 		}
 	}
 }
+
+// tailBuf keeps the last 4 KiB written to it
+type tailBuf struct{ b []byte }
+
+func (t *tailBuf) Write(p []byte) (int, error) {
+	t.b = append(t.b, p...)
+	if len(t.b) > 4096 {
+		t.b = t.b[len(t.b)-4096:]
+	}
+	return len(p), nil
+}
+func (t *tailBuf) String() string { return string(t.b) }
